@@ -31,6 +31,18 @@ async def party_main(world, p, prog, case):
             rt._prss_keys[S] = (b'\x00' * 16) if prog['keys'] == 'zero' else (b'\x5a' * 16)
         rt.prfs.cache_clear()
     p.obs['keys'] = {tuple(S): bytes(k) for S, k in rt._prss_keys.items()}
+    if _restart_t(prog, m) is not None:
+        # first session: evaluate every item once (so that whatever the runtime caches per bound exists), then
+        # shut down, change the threshold with the setter, start again: the second session must be a proper
+        # session for the NEW threshold
+        for it in prog['items']:
+            field = mpyc_field(it['field'])
+            prfs0 = rt.prfs(field.order if it['bound'] == 'order' else it['bound'])
+            thresha.pseudorandom_share(field, m, rt.pid, prfs0, bytes.fromhex(it['uci']), 1)
+        await rt.shutdown()
+        rt.threshold = prog['restart_t']
+        await rt.start()
+        p.obs['keys'] = {tuple(S): bytes(k) for S, k in rt._prss_keys.items()}
     out = []
     for it in prog['items']:
         field = mpyc_field(it['field'])
@@ -51,6 +63,12 @@ async def party_main(world, p, prog, case):
     return {'shares': out}
 
 
+def _restart_t(prog, m):
+    """Threshold of the second session, if the program has one that is valid for m parties (the minimiser lowers m)."""
+    t2 = prog.get('restart_t')
+    return t2 if t2 is not None and 2 * t2 < m else None
+
+
 def prf(key, bound, s, n):
     """Independent re-implementation of the PRF (SHAKE-128 expansion)."""
     l = ((bound - 1).bit_length() + 7) // 8
@@ -68,6 +86,9 @@ def judge(fam, case, cfg, w, res):
     from ..runner import describe_errors
     prog = case['prog']
     m, t = cfg.m, cfg.t
+    if _restart_t(prog, m) is not None:
+        t = prog['restart_t']
+        res.info.setdefault('probes', {})['restarts'] = 1
     if w.outcome == 'error':
         res.violations.append(('party-exception', '; '.join(describe_errors(w))[:600]))
         return
@@ -154,4 +175,9 @@ def gen(rng, cfg, tier='quick', numpy=False):
             items.append(dict(it, kind='np_' + kind))
     if not items:
         items = [{'field': {'p': 101, 'd': 1}, 'bound': 'order', 'n': 1, 'kind': 'share', 'uci': '00' * 8}]
-    return {'family': NAME, 'keys': rng.choice(('real', 'real', 'real', 'equal', 'zero')), 'items': items}
+    prog = {'family': NAME, 'keys': rng.choice(('real', 'real', 'real', 'equal', 'zero')), 'items': items}
+    others = [t2 for t2 in range(cfg.m) if 2 * t2 < cfg.m and t2 != cfg.t]
+    if others and rng.random() < 0.2:
+        prog['keys'] = 'real'
+        prog['restart_t'] = rng.choice(others)       # second session with another threshold
+    return prog
